@@ -1,11 +1,29 @@
 #!/bin/bash
-# confirm_seed.sh <worktree> : confirms that (1) the existing tests pass with the patch, (2) the demo fails with and passes without it
-WT=$1
+# confirm_seed.sh <worktree> <SEED-ID> [demo command]: confirms in the scratch worktree that (1) the existing tests pass with
+# the patch, (2) the demo fails with and passes without it; then stores patch.diff, demo/ (without build output) and
+# meta.json under /verif/seeded/<SEED-ID>/ with a "confirmed" block.
+WT=$1; ID=$2; CMD=${3:-"cargo run --offline"}
 cd $WT || exit 2
 git apply -R --check patch.diff 2>/dev/null || { echo "patch not applied in worktree; applying"; git apply patch.diff || exit 2; }
-T1=$(cargo test --workspace --offline 2>&1 | grep -E "^test result" | grep -v " 0 failed" | wc -l); E1=${PIPESTATUS[0]}
 cargo test --workspace --offline >/tmp/wt/confirm.log 2>&1; R1=$?
-cargo test --workspace --offline --features unimock >>/tmp/wt/confirm.log 2>&1; R2=$?
-DEMO=$(python3 -c "import json;print(json.load(open('meta.json'))['demo'])" 2>/dev/null | head -c 300)
-echo "tests: plain=$R1 unimock=$R2"
-echo "demo: $DEMO"
+cargo test --offline --features unimock >>/tmp/wt/confirm.log 2>&1; R2=$?
+(cd demo && touch src/*.rs && eval "$CMD" >/tmp/wt/demo_with.log 2>&1); D1=$?
+git apply -R patch.diff
+(cd demo && touch src/*.rs && eval "$CMD" >/tmp/wt/demo_without.log 2>&1); D2=$?
+git apply patch.diff
+echo "tests: plain=$R1 unimock=$R2  demo: with=$D1 without=$D2"
+[ $R1 = 0 ] && [ $R2 = 0 ] && [ $D1 != 0 ] && [ $D2 = 0 ] || { echo NOT-CONFIRMED; exit 1; }
+mkdir -p /verif/seeded/$ID
+cp patch.diff /verif/seeded/$ID/
+rsync -a --exclude target demo /verif/seeded/$ID/
+python3 - "$ID" "$CMD" "$(git rev-parse --short HEAD)" <<'PY'
+import json, sys
+sid, cmd, head = sys.argv[1:4]
+m = json.load(open("meta.json"))
+m["origin"] = "independent sub-agent (second round: told which ideas were already used) given only the property text and a scratch worktree"
+m["confirmed"] = {"base": head, "existing_tests_pass": "cargo test --workspace --offline and cargo test --offline --features unimock: exit 0 with the patch (re-run by the main session in the scratch worktree)",
+                  "demo_cmd": cmd, "demo_with_patch": "fails", "demo_without_patch": "passes",
+                  "demo_with_tail": open("/tmp/wt/demo_with.log").read()[-600:], "demo_without_tail": open("/tmp/wt/demo_without.log").read()[-200:]}
+json.dump(m, open(f"/verif/seeded/{sid}/meta.json", "w"), indent=1)
+PY
+echo CONFIRMED $ID
